@@ -1,6 +1,7 @@
 package rules
 
 import (
+	"os"
 	"fmt"
 	"go/constant"
 	"go/types"
@@ -246,6 +247,16 @@ func monoidRules(c *core.Ctx) {
 	for _, ctor := range []string{"From", "FromOp"} {
 		name := "monoid." + ctor
 		fn := c.W.Func("pure/monoid", ctor)
+		// another representation of the monoid (a second implementation type for plain binary operators, a fast path
+		// choosing between two): the constructor is right when, on every returning path, the value it builds answers
+		// Empty() with the constructor's first parameter and Combine(a, b) with one application of its second
+		// parameter to (a, b) - the laws are then those of the arguments, whatever sits in between
+		if fn != nil {
+			if okC, how := monoidComposed(c, fn); okC {
+				c.Ok("monoid-literal", name, fn.Pos(), how)
+				continue
+			}
+		}
 		p := singlePath(c, "monoid-literal", name, fn)
 		if p == nil {
 			continue
@@ -518,4 +529,130 @@ func onlyNilGuard(p *ir.Path) bool {
 		}
 	}
 	return foundNil
+}
+
+
+// monoidComposed: see the call site. Only consulted; the literal form below gives the precise messages.
+func monoidComposed(c *core.Ctx, cf *ssa.Function) (bool, string) {
+	can := c.Analyze(cf)
+	if len(can.Problems) > 0 || len(can.Headers) > 0 {
+		return dbgFalse(1)
+	}
+	rootOf := func(t *ir.Term) *ir.Term {
+		for t != nil {
+			switch t.Op {
+			case "conv", "extract", "tassert", "field":
+				if len(t.Args) > 0 {
+					t = t.Args[0]
+					continue
+				}
+			}
+			break
+		}
+		return t
+	}
+	nPaths := 0
+	for _, cp := range dropNilGuardPanics(can.AllPaths()) {
+		if cp.Exit != ir.ExitReturn || len(cp.Results) != 1 || len(calls(cp)) != 0 || len(nonLocalStores(cp)) != 0 {
+			return dbgFalse(2)
+		}
+		nPaths++
+		recv := cp.Results[0]
+		dt := cp.End.DynType(recv)
+		if dt == nil {
+			if os.Getenv("VERIF_DBG_C17") != "" {
+				fmt.Fprintln(os.Stderr, "no dyn type for", short(recv))
+			}
+			return dbgFalse(3)
+		}
+		nt := namedBehindPtr(dt)
+		if nt == nil {
+			return dbgFalse(4)
+		}
+		ms := methodsOf(c, nt.Origin())
+		em, cm := ms["Empty"], ms["Combine"]
+		if cm == nil {
+			cm = iterMethod(c, nt.Origin(), "Combine") // promoted through an embedded field
+		}
+		if em == nil {
+			em = iterMethod(c, nt.Origin(), "Empty")
+		}
+		promoted := false
+		if cm == nil && em != nil {
+			// Combine promoted from an embedded interface-typed field: the value kept there must be the constructor's
+			// second parameter itself
+			if st, isS := nt.Origin().Underlying().(*types.Struct); isS {
+				lit := recv
+				if lit.Op == "alloc" {
+					lit = cp.End.MemAt(lit)
+				}
+				for i := 0; i < st.NumFields(); i++ {
+					f := st.Field(i)
+					if !f.Embedded() || !types.IsInterface(f.Type()) {
+						continue
+					}
+					if o, _, _ := types.LookupFieldOrMethod(f.Type(), false, nil, "Combine"); o == nil {
+						continue
+					}
+					if lit != nil && paramOf(fieldOf2(lit, f.Name()), cf, 1) {
+						promoted = true
+					}
+				}
+			}
+		}
+		if em == nil || !promoted && (cm == nil || len(cm.Params) != 3) || len(em.Params) != 1 {
+			return dbgFalse(5)
+		}
+		bind := func(mf *ssa.Function) *ir.Term {
+			r := recv
+			if _, isPtr := mf.Params[0].Type().Underlying().(*types.Pointer); !isPtr && r.Op == "alloc" {
+				r = cp.End.MemAt(r)
+			}
+			return r
+		}
+		// Empty() = the constructor's first parameter
+		ean := c.AnalyzeFrom(em, ir.NewRootState(em, []*ir.Term{bind(em)}, nil, cp.End), fmt.Sprintf("composed-monoid:%s:%d", cf.Name(), nPaths))
+		eps := dropNilGuardPanics(ean.AllPaths())
+		if len(ean.Problems) > 0 || len(eps) != 1 || eps[0].Exit != ir.ExitReturn || len(eps[0].Results) != 1 || len(calls(eps[0])) != 0 || !paramOf(eps[0].Results[0], cf, 0) {
+			return dbgFalse(6)
+		}
+		if promoted {
+			continue
+		}
+		// Combine(a, b) = one application of the second parameter to (a, b)
+		man := c.AnalyzeFrom(cm, ir.NewRootState(cm, []*ir.Term{bind(cm)}, nil, cp.End), fmt.Sprintf("composed-monoid:%s:%d", cf.Name(), nPaths))
+		mps := dropNilGuardPanics(man.AllPaths())
+		if len(man.Problems) > 0 || len(mps) != 1 || mps[0].Exit != ir.ExitReturn || len(mps[0].Results) != 1 || len(nonLocalStores(mps[0])) != 0 {
+			return dbgFalse(7)
+		}
+		cs := calls(mps[0])
+		if len(cs) != 1 || !ir.Same(mps[0].Results[0], cs[0].R) {
+			return dbgFalse(8)
+		}
+		st := cs[0]
+		var args []*ir.Term
+		switch {
+		case st.Method != nil && st.Method.Name() == "Combine" && len(st.A) == 3 && paramOf(rootOf(st.A[0]), cf, 1):
+			args = st.A[1:]
+		case st.Method == nil && st.Callee != nil && paramOf(rootOf(st.Callee), cf, 1) && len(st.A) == 2:
+			args = st.A
+		default:
+			return dbgFalse(9)
+		}
+		if !paramOf(args[0], cm, 1) || !paramOf(args[1], cm, 2) {
+			return dbgFalse(10)
+		}
+	}
+	if nPaths == 0 {
+		return dbgFalse(11)
+	}
+	return true, fmt.Sprintf("%d constructor paths: Empty() = empty, Combine(a, b) = combine applied once to (a, b)", nPaths)
+}
+
+
+func dbgFalse(n int) (bool, string) {
+	if os.Getenv("VERIF_DBG_C17") != "" {
+		fmt.Fprintln(os.Stderr, "monoidComposed: exit", n)
+	}
+	return false, ""
 }
